@@ -51,7 +51,8 @@ impl Prop for C03 {
         for i in 0..n {
             let html = gen_doc(r, knobs()).0;
             let mutated = i % 8 == 7;
-            let bytes = if mutated { gen::mutate(r, html.as_bytes()) } else { html.into_bytes() };
+            let misnested = i % 8 == 3;
+            let bytes = if mutated { gen::mutate(r, html.as_bytes()) } else if misnested { gen::misnest(r, &html).into_bytes() } else { html.into_bytes() };
             for _ in 0..(if tier == Tier::Quick { 3 } else { 6 }) {
                 let mut cfg = mk_cfg(r, false);
                 cfg.overflow = r.p(10);
@@ -59,7 +60,7 @@ impl Prop for C03 {
                     cfg.footnotes = false;
                 }
                 let w = if r.p(50) { 1 + r.u(20) } else { 1 + r.u(200) };
-                v.push(case(bytes.clone(), cfg, w, if mutated { "g-mut" } else { "g-doc" }));
+                v.push(case(bytes.clone(), cfg, w, if mutated { "g-mut" } else if misnested { "g-misnest" } else { "g-doc" }));
             }
         }
         // sparse tables (columns empty in every row, short cells) at narrow widths, between other blocks
